@@ -14,6 +14,7 @@ subid name=<k> id=<id> [rm=<mask>] [uo]                -> seed=[…]      (PullI
 unsub name=<k>                                         -> ok
 upd|add|del|vset … (as C01)                            -> val=… err=… | k1=[delivered…] k2=[…]   (live subscriptions)
 racea|raceb|racec w=<upd|add|del|vset> sname=<k> [srm=<mask>] [suo] … (the write's keys)
+racee w=<upd|add|del|vset> cname=<k> … (the write's keys)   -> parked=… val=… err=… | k1=[…]   (subscriptions still open)
 raced id=<id> [am] [ev=…] [chk=…] u=<upd|add|del> uid=<id> [umsg=<msg>] [ucia] [uwt=<t>]
                                                        -> uval=… uerr=… | k1=[…] || val=… err=… | k1=[…]
 ```
@@ -179,6 +180,37 @@ def handleRace (st : DrvState) (rk : RaceKind) (kv : KV) : Option (DrvState × S
             oldS ++ s!"{name}=[]")
   | .none => none
 
+/-- `racee`: the write is held inside `Bus.Send`, after the snapshot of the listeners, while the
+subscription `cname` (in the snapshot) is cancelled: `Bus.send` with the schedule `[cancel cname]`.  A
+write that announces nothing never reaches the bus (`parked=false`): the cancel happens on an idle
+bus.  Printed: what the subscriptions still open receive. -/
+def handleRaceE (st : DrvState) (kv : KV) : Option (DrvState × String) := do
+  let w ← kvGet kv "w"
+  let cname ← kvGet kv "cname"
+  let kvW := kv.filter (fun p => !(["w", "cname"].contains p.1))
+  let wr ← parseWriteReq? kvW
+  let sched : List (Act String Sub) := [.cancel cname]
+  match st.res with
+  | .coll cfg s =>
+    let id ← kvGet kv "id"
+    let r ← (match w with
+      | "upd" => (kvGet kv "msg").bind parseMsg? |>.map (fun m => Coll.update cfg s id m wr)
+      | "add" => (kvGet kv "msg").bind parseMsg? |>.map (fun m => Coll.add cfg s id m wr)
+      | "del" => some (Coll.delete cfg s id wr)
+      | _ => none)
+    let (o, s') := r
+    pure ({ st with res := .coll cfg s', subs := publish (dC cfg st.eqv) st.subs o.events sched },
+          s!"parked={!o.events.isEmpty} val={showOptMsg o.val} err={showErr o.err} | " ++
+          deliverC cfg st.eqv (live (markDead cname st.subs)) o.events)
+  | .val cfg s =>
+    if w != "vset" then none
+    let m ← (kvGet kv "msg").bind parseMsg?
+    let (o, s') := Value.set cfg s m wr
+    pure ({ st with res := .val cfg s', subs := publish (dV cfg st.eqv) st.subs o.events sched },
+          s!"parked={!o.events.isEmpty} val={showOptMsg o.val} err={showErr o.err} | " ++
+          deliverV cfg st.eqv (live (markDead cname st.subs)) o.events)
+  | .none => none
+
 def handleOpt (st : DrvState) (toks : List String) : Option (DrvState × String) :=
   match toks with
   | [] => none
@@ -188,6 +220,7 @@ def handleOpt (st : DrvState) (toks : List String) : Option (DrvState × String)
     | "racea", _ => handleRace st .a kv
     | "raceb", _ => handleRace st .b kv
     | "racec", _ => handleRace st .c kv
+    | "racee", _ => handleRaceE st kv
     | "raced", .coll cfg s =>
       -- a Delete is held right after its first read (coll.delete.afterRead) while another write of the
       -- writer runs to completion; then the Delete goes on with its now possibly stale read
